@@ -16,6 +16,7 @@ Definition cx_eqb (a b : cx) : bool :=
   mpc_eqb (mp a) (mp b) && wpc_eqb (wp a) (wp b) && Bool.eqb (cancelled a) (cancelled b) &&
   Bool.eqb (done_closed a) (done_closed b) && Bool.eqb (dl_past a) (dl_past b) && Bool.eqb (ready a) (ready b) && Bool.eqb (half a) (half b) &&
   Bool.eqb (failing a) (failing b) && Bool.eqb (op_err a) (op_err b) &&
+  Bool.eqb (refusing a) (refusing b) && Bool.eqb (set_err a) (set_err b) && Bool.eqb (tainted a) (tainted b) &&
   (op_n a =? op_n b) && Bool.eqb (op_timeout a) (op_timeout b) && Bool.eqb (ret_ctx_err a) (ret_ctx_err b) &&
   (ret_n a =? ret_n b).
 
@@ -110,7 +111,7 @@ Definition implb' (a b : bool) : bool := if a then b else true.
        context is over and nothing was transferred *)
 Definition ret_ok (s : cx) : bool :=
   implb' (is_ret s)
-    (match wp s with WEnd => true | _ => false end && negb (dl_past s) && (ret_n s =? op_n s) &&
+    (match wp s with WEnd => true | _ => false end && (negb (dl_past s) || tainted s) && (ret_n s =? op_n s) &&
      Bool.eqb (ret_ctx_err s) (cancelled s && (op_n s =? 0))).
 
 Lemma ret_ok_all : forallb ret_ok reach = true.
@@ -118,14 +119,14 @@ Proof. vm_compute. reflexivity. Qed.
 
 (* (b) a forced deadline exists only while a watcher is still running, and only after the context ended *)
 Definition dl_ok (s : cx) : bool :=
-  implb' (dl_past s) (cancelled s && match wp s with W5 | WRestore => true | _ => false end).
+  implb' (dl_past s && negb (tainted s)) (cancelled s && match wp s with W5 | WRestore => true | _ => false end).
 
 Lemma dl_ok_all : forallb dl_ok reach = true.
 Proof. vm_compute. reflexivity. Qed.
 
 (* (c) a wrapped operation that timed out did so because the context ended (the wrapper never times out
        an operation of its own accord) *)
-Definition timeout_ok (s : cx) : bool := implb' (op_timeout s) (cancelled s).
+Definition timeout_ok (s : cx) : bool := implb' (op_timeout s && negb (tainted s)) (cancelled s).
 
 Lemma timeout_ok_all : forallb timeout_ok reach = true.
 Proof. vm_compute. reflexivity. Qed.
@@ -133,7 +134,7 @@ Proof. vm_compute. reflexivity. Qed.
 (* (d) progress: events of the two goroutines (not of the environment) *)
 Definition thread_events : list cev :=
   [EM_lock; EM_check; EM_add; EM_go; EM_op_data; EM_op_data0; EM_op_err; EM_op_timeout; EM_op_partial; EM_close_done; EM_wait_return;
-   EW_ctx; EW_done; EW_set_past; EW_recv_done; EW_restore].
+   EW_ctx; EW_done; EW_set_past; EW_recv_done; EW_restore; EW_set_past_fail; EW_restore_fail].
 
 Definition can_move (s : cx) : bool :=
   existsb (fun e => match cxstep s e with Some _ => true | None => false end) thread_events.
@@ -142,7 +143,7 @@ Definition can_move (s : cx) : bool :=
    wrapped operation with nothing to transfer and a live context - exactly where the wrapped connection
    itself would block *)
 Definition stuck_ok (s : cx) : bool :=
-  implb' (negb (can_move s))
+  implb' (negb (can_move s) && negb (tainted s))
     (is_ret s || (match mp s with MOp => true | _ => false end && negb (ready s) && negb (cancelled s) && negb (failing s))).
 
 Lemma stuck_ok_all : forallb stuck_ok reach = true.
@@ -155,7 +156,7 @@ Definition rank (s : cx) : Z :=
 
 Definition rank_ok (s : cx) : bool :=
   forallb (fun e => match cxstep s e with Some s' => rank s' <? rank s | None => true end) thread_events &&
-  forallb (fun e => match cxstep s e with Some s' => rank s' <=? rank s | None => true end) [EN_cancel; EN_ready; EN_half; EN_fail].
+  forallb (fun e => match cxstep s e with Some s' => rank s' <=? rank s | None => true end) [EN_cancel; EN_ready; EN_half; EN_fail; EN_refuse].
 
 Lemma rank_ok_all : forallb rank_ok reach = true.
 Proof. vm_compute. reflexivity. Qed.
@@ -207,64 +208,63 @@ Qed.
 (* ---- Prop-level statements ------------------------------------------------------------------------------ *)
 
 Definition m0_ok (s : cx) : bool :=
-  implb' (match mp s with M0 => true | _ => false end) (negb (dl_past s) && match wp s with WNone => true | _ => false end).
+  implb' (match mp s with M0 => true | _ => false end) ((negb (dl_past s) || tainted s) && match wp s with WNone => true | _ => false end).
 Lemma m0_ok_all : forallb m0_ok reach = true.
 Proof. vm_compute. reflexivity. Qed.
 
 Theorem return_state h s :
   cxrun cx0 h = Some s -> mp s = MRet ->
-  wp s = WEnd /\ dl_past s = false /\ ret_n s = op_n s /\
+  wp s = WEnd /\ (tainted s = false -> dl_past s = false) /\ ret_n s = op_n s /\
   (ret_ctx_err s = true <-> cancelled s = true /\ op_n s = 0).
 Proof.
   intros Hr Hm. pose proof (check_all ret_ok ret_ok_all h s Hr) as H.
   unfold ret_ok, is_ret, implb' in H. rewrite Hm in H.
-  destruct (wp s); simpl in H; try discriminate.
-  destruct (dl_past s); simpl in H; try discriminate.
-  destruct (ret_n s =? op_n s) eqn:En; simpl in H; try discriminate.
-  apply Z.eqb_eq in En. apply Bool.eqb_prop in H.
-  repeat split; try assumption.
-  - rewrite H in H0. apply andb_prop in H0. tauto.
-  - rewrite H in H0. apply andb_prop in H0. destruct H0 as [_ H0]. apply Z.eqb_eq in H0. assumption.
-  - intros [Hc Hn]. rewrite H, Hc, Hn. reflexivity.
+  apply andb_prop in H. destruct H as [H H4]. apply andb_prop in H. destruct H as [H H3].
+  apply andb_prop in H. destruct H as [H1 H2].
+  apply Z.eqb_eq in H3. apply Bool.eqb_prop in H4.
+  split; [destruct (wp s); try discriminate; reflexivity|].
+  split; [intros Ht; rewrite Ht in H2; destruct (dl_past s); [discriminate|reflexivity]|].
+  split; [assumption|].
+  rewrite H4. rewrite andb_true_iff, Z.eqb_eq. tauto.
 Qed.
 
 Theorem next_op_clean h s :
-  cxrun cx0 h = Some s -> mp s = M0 -> dl_past s = false /\ wp s = WNone.
+  cxrun cx0 h = Some s -> mp s = M0 -> tainted s = false -> dl_past s = false /\ wp s = WNone.
 Proof.
-  intros Hr Hm. pose proof (check_all m0_ok m0_ok_all h s Hr) as H.
-  unfold m0_ok, implb' in H. rewrite Hm in H. destruct (dl_past s), (wp s); simpl in H; try discriminate; split; reflexivity.
+  intros Hr Hm Ht. pose proof (check_all m0_ok m0_ok_all h s Hr) as H.
+  unfold m0_ok, implb' in H. rewrite Hm, Ht in H. destruct (dl_past s), (wp s); simpl in H; try discriminate; split; reflexivity.
 Qed.
 
 Theorem forced_deadline_only_after_cancel h s :
-  cxrun cx0 h = Some s -> dl_past s = true -> cancelled s = true /\ (wp s = W5 \/ wp s = WRestore).
+  cxrun cx0 h = Some s -> tainted s = false -> dl_past s = true -> cancelled s = true /\ (wp s = W5 \/ wp s = WRestore).
 Proof.
-  intros Hr Hd. pose proof (check_all dl_ok dl_ok_all h s Hr) as H.
-  unfold dl_ok, implb' in H. rewrite Hd in H. apply andb_prop in H. destruct H as [H1 H2].
+  intros Hr Ht Hd. pose proof (check_all dl_ok dl_ok_all h s Hr) as H.
+  unfold dl_ok, implb' in H. rewrite Hd, Ht in H. simpl in H. apply andb_prop in H. destruct H as [H1 H2].
   split; [assumption|]. destruct (wp s); try discriminate; tauto.
 Qed.
 
 Theorem timeout_only_after_cancel h s :
-  cxrun cx0 h = Some s -> op_timeout s = true -> cancelled s = true.
+  cxrun cx0 h = Some s -> tainted s = false -> op_timeout s = true -> cancelled s = true.
 Proof.
-  intros Hr Hd. pose proof (check_all timeout_ok timeout_ok_all h s Hr) as H.
-  unfold timeout_ok, implb' in H. rewrite Hd in H. exact H.
+  intros Hr Ht Hd. pose proof (check_all timeout_ok timeout_ok_all h s Hr) as H.
+  unfold timeout_ok, implb' in H. rewrite Hd, Ht in H. exact H.
 Qed.
 
 Theorem blocked_only_like_wrapped h s :
-  cxrun cx0 h = Some s -> can_move s = false ->
+  cxrun cx0 h = Some s -> tainted s = false -> can_move s = false ->
   mp s = MRet \/ (mp s = MOp /\ ready s = false /\ cancelled s = false).
 Proof.
-  intros Hr Hc. pose proof (check_all stuck_ok stuck_ok_all h s Hr) as H.
-  unfold stuck_ok, implb', is_ret in H. rewrite Hc in H. simpl in H.
+  intros Hr Ht Hc. pose proof (check_all stuck_ok stuck_ok_all h s Hr) as H.
+  unfold stuck_ok, implb', is_ret in H. rewrite Hc, Ht in H. simpl in H.
   destruct (mp s); simpl in H; try discriminate; try (left; reflexivity).
   right. destruct (ready s), (cancelled s); simpl in H; try discriminate. tauto.
 Qed.
 
 Corollary cancelled_can_move h s :
-  cxrun cx0 h = Some s -> cancelled s = true -> mp s <> MRet -> can_move s = true.
+  cxrun cx0 h = Some s -> tainted s = false -> cancelled s = true -> mp s <> MRet -> can_move s = true.
 Proof.
-  intros Hr Hc Hm. destruct (can_move s) eqn:E; [reflexivity|].
-  destruct (blocked_only_like_wrapped h s Hr E) as [H|[_ [_ H]]]; congruence.
+  intros Hr Ht Hc Hm. destruct (can_move s) eqn:E; [reflexivity|].
+  destruct (blocked_only_like_wrapped h s Hr Ht E) as [H|[_ [_ H]]]; congruence.
 Qed.
 
 Lemma thread_step_rank h s e s' :
